@@ -571,6 +571,36 @@ func c03One(l *Lab, rep *Report, idp *IdP, c c03Cfg) {
 			}
 		}
 	}
+	// ---- token route: another user asks /connect for the first user's substituted entries after the
+	// first user obtained tokens for them (what one user's requests resolve must not become policy for others)
+	if c.Kind == "openid" && (c.Mode == "unsigned" || c.Mode == "roundrobin") && user != "" {
+		ib := NewBrowser(g, "")
+		logged := false
+		for _, tgt := range targets {
+			own := false
+			for _, h := range hosts {
+				if strings.Replace(h, "{{ preferred_username }}", "intruder", 1) == tgt {
+					own = true
+				}
+			}
+			if own {
+				continue
+			}
+			var f *RDPFile
+			q := "host=" + url.QueryEscape(tgt)
+			if !logged {
+				f, _, _ = ib.Login("intruder", q)
+				logged = true
+			} else {
+				f, _, _ = ib.Download(q)
+			}
+			rep.Eval(HashStr(c.ID, "intruder-connect", tgt, f != nil))
+			rep.Count("requests/other-users-entry-at-connect", 1)
+			if f != nil && f.Settings["full address"] == tgt {
+				rep.Violate("C03/denied-host-accepted/openid/"+c.Mode+"/token-for-other-users-entry", fmt.Sprintf("user \"intruder\" was issued a token for %q, an entry that only user %q may reach (after that user had requested it)", tgt, user), map[string]any{"hosts": hosts})
+			}
+		}
+	}
 	// ---- a second user on the same process asks for the first user's entries
 	c03Intruder(l, rep, g, c, fa, hosts, user, targets, all, hdr)
 	// ---- strace: every TCP connect() of the process must go to the IdP, or to an address a dial event names
